@@ -280,6 +280,12 @@ def run_unit(unit, repo='/repo', canary=True, keep=False, rlimit=None, workdir=N
         res['status'] = 'undecided'; res['problems'] = g.problems; res['wall_s'] = time.time() - t0; return res
     for r in g.report:
         r['changed'] = bool(r['edits'])
+    key = hashlib.sha1((g.text + '|canary=%s|rlimit=%s|v3' % (canary, rlimit or unit.get('rlimit'))).encode()).hexdigest()
+    cdir = os.path.join(ROOT, '.cache'); cpath_ = os.path.join(cdir, '%s_%s.json' % (unit['name'], key))
+    if os.environ.get('VX_NO_CACHE') != '1' and os.path.exists(cpath_) and not keep:
+        try:
+            c = json.load(open(cpath_)); c['cached'] = True; c['report'] = res['report']; c['items'] = res['items']; return c
+        except Exception: pass
     d = workdir or tempfile.mkdtemp(prefix='vx_%s_' % unit['name'], dir=os.environ.get('VX_TMP', '/tmp'))
     os.makedirs(d, exist_ok=True)
     try:
@@ -350,6 +356,11 @@ def run_unit(unit, repo='/repo', canary=True, keep=False, rlimit=None, workdir=N
     finally:
         if not keep and not workdir: shutil.rmtree(d, ignore_errors=True)
     res['wall_s'] = round(time.time() - t0, 2)
+    res['gen_sha'] = key
+    if res['status'] in ('ok', 'failed') and not any(p_['kind'] in ('timeout', 'tool-error') for p_ in res['problems']):
+        try:
+            os.makedirs(cdir, exist_ok=True); json.dump(res, open(cpath_ + '.tmp', 'w')); os.replace(cpath_ + '.tmp', cpath_)
+        except Exception: pass
     return res
 
 def cmd_import(unit, repo):
